@@ -305,8 +305,9 @@ class Taxonomy(object):
         if len(leaf_names) != len(set(leaf_names)):
             raise KeyError("Leaves names are not unique ! Leaves founded: {}".format(int_names))
 
-        # Check for internal names
-        if len(set(int_names)) != len(set(int_names)):
+        # Check for internal names (the names actually assigned to the internal nodes)
+        int_names = [node.name for node in self.tree.traverse() if not node.is_leaf()]
+        if len(int_names) != len(set(int_names)):
             raise KeyError("Internal Names are not unique. Internal names founded: {}. If you specify use_internal_name=False, please report the bug to us.".format(int_names))
 
     def _add_depth(self, node, depth=0):
